@@ -235,6 +235,9 @@ func (x *Exec) zeroTerm(t types.Type) *smt.Term {
 			return smt.SeqConcat(parts...)
 		}
 		f := smt.Fresh("zeroarr", x.E.SortOf(t))
+		k := smt.Var(smt.FreshName("za$i"), smt.Int)
+		smt.AddFact(f, smt.Eq(smt.SeqLen(f), smt.IntC(u.Len())))
+		smt.AddFact(f, smt.Forall([]*smt.Term{k}, smt.Implies(smt.And(smt.Le(smt.IntC(0), k), smt.Lt(k, smt.IntC(u.Len()))), smt.Eq(smt.SeqNth(f, k), x.zeroTerm(u.Elem()))), []*smt.Term{smt.SeqNth(f, k)}))
 		return f
 	case *types.Struct:
 		s := x.E.SortOf(t)
